@@ -489,7 +489,8 @@ func touchAccessors(d iterator) {
 	}
 }
 
-const maxStmts = 200000 // a decoder yielding more than this from a bounded input is reported as unbounded output
+// a decoder yielding more than 200000 + 8·|input| statements is reported as unbounded output
+func maxStmts(n int) int { return 200000 + 8*n }
 
 func sameErr(a, b error) bool {
 	if a == nil || b == nil {
@@ -536,9 +537,11 @@ func runDecoder(format string, o Opts, r io.Reader) (out Outcome) {
 			}
 		}
 		out.Stmts = append(out.Stmts, stmtCanon(st, bn))
-		if len(out.Stmts) > maxStmts {
+		if len(out.Stmts) > maxStmts(inputLen(r)) {
 			out.Life = append(out.Life, "unbounded-output")
-			break
+			d.Close()
+			out.Verdict = "clean"
+			return
 		}
 	}
 	e0 := d.Err()
@@ -565,4 +568,11 @@ func runDecoder(format string, o Opts, r io.Reader) (out Outcome) {
 		out.Verdict = "clean"
 	}
 	return
+}
+
+func inputLen(r io.Reader) int {
+	if sr, ok := r.(*schedReader); ok {
+		return len(sr.b)
+	}
+	return 0
 }
